@@ -15,7 +15,29 @@ translator: desugar() does not descend into `for` bodies and the direct masked u
 Expressions that are not statements of their own (the `weight=` keyword of the final return, the two `.any()`
 operands of the pooled-reference test) are located here with `ast`, their
 surrounding shape is checked (fail-closed: otherwise the fragment is made unfindable and the translator refuses), and
-their source text is handed over through `returns=`."""
+their source text is handed over through `returns=`.
+
+Loop ties added later (theorems in Proofs/FnFixRows.v, FnFixCorrections.v, FnFixEdge.v; C04_source_* at the end of
+Props/C04.v):
+FnFixRows         center_by_window `df["log2"] -= biases` and do_fix `cnarr.data["log2"] -= ref_matched[log2_key]`, per row
+FnFixClassWt      apply_weights' two masked stores into simple_wt (the class dispatch), per row
+FnFixLow          load_adjust_coverages' low-coverage test (row mask and count test located with `ast`)
+FnFixCorrections  load_adjust_coverages' corrections: three prefixes of `if fix_gc / if fix_edge / if fix_rmask`
+FnFixEdge         get_edge_bias' loop body, per gap (fragment) and per tile (loop iteration; the per-gap statements are
+                  an opaque range, `output_by_chrom.append` is read as a yield) -- the note above about get_edge_bias
+                  no longer applies: loop bodies are desugared in loop mode and a mask may be an opaque keyed expression.
+Still not tied: match_ref_to_sample (index / reindex code, its loop only raises), center_by_window's shuffle / argsort /
+rolling median (array algorithms: model + oracles), `frac = max(0.01, len(cnarr) ** -0.5)` (general power), the
+`if is_anti.any():` bookkeeping of apply_weights (an if whose body is only a log line after desugaring).
+
+Mutations tried on a scratch copy (each breaks the named Proofs file, i.e. an obligation of C04; none survives):
+  FnFixRows / FnFixClassWt  `df["log2"] -= biases` -> `+=` ; `-= ref_matched[log2_key]` -> `+=` ; -> `ref_matched[spread_key]`
+                            (refused: unknown name) ; `simple_wt[is_anti] = anti_simple_wts` -> `[~is_anti]` ;
+                            `simple_wt[~is_anti] = tgt_simple_wts` -> `[is_anti]`
+  FnFixLow                  `.sum() <= len(cnarr) // 2` -> `<` ; `cnarr["log2"] > NULL - MIN` -> `>=`
+  FnFixCorrections          `if fix_edge:` -> `if fix_edge and fix_gc:` ; `if "rmask" in ref_matched` -> `"gc"`
+  FnFixEdge                 `gap_sizes < margin` -> `<=` ; left_gains from `tgt_sizes[:-1]` ; `gains - losses` -> `+` ;
+                            `+= right_gains` -> `-=`"""
 import ast, os, sys
 
 
@@ -163,6 +185,60 @@ def _weights_specs():
     ]
 
 
+# ---- loop ties (LOOP_TIES_GUIDE) -------------------------------------------------------------------------------
+_LAC = ['cnarr', 'ref_cnarr', 'skip_low', 'fix_gc', 'fix_edge', 'fix_rmask', 'diploid_parx_genome', 'smoothing_window_fraction']
+_DOFIX = ['target_raw', 'antitarget_raw', 'reference', 'diploid_parx_genome', 'do_gc', 'do_edge', 'do_rmask', 'do_cluster',
+          'smoothing_window_fraction']
+_AW = ['cnarr', 'ref_matched', 'log2_key', 'spread_key', 'epsilon']
+
+
+def _low_test():
+    """load_adjust_coverages: `if (<row mask>).sum() <= len(cnarr) // 2:` -> (row mask text, `.sum()` text, test text)"""
+    fn = _func('load_adjust_coverages')
+    hits = [s for s in ast.walk(fn) if isinstance(s, ast.If) and isinstance(s.test, ast.Compare)
+            and isinstance(s.test.left, ast.Call) and isinstance(s.test.left.func, ast.Attribute)
+            and s.test.left.func.attr == 'sum' and not s.test.left.args and not s.test.left.keywords]
+    if len(hits) != 1:
+        raise ValueError('expected one `if (...).sum() <cmp> ...:` in load_adjust_coverages, found %d' % len(hits))
+    s = hits[0]
+    if not (s.orelse and any(ast.unparse(x).startswith('frac = smoothing_window_fraction') for x in s.orelse)):
+        raise ValueError('the corrections are not in the else branch of the low-coverage test')
+    if any(not (isinstance(x, ast.Expr) and ast.unparse(x.value).startswith('logging.')) for x in s.body):
+        raise ValueError('the then branch of the low-coverage test is not a warning only')
+    return ast.unparse(s.test.left.func.value), ast.unparse(s.test.left), ast.unparse(s.test)
+
+
+def _low_specs():
+    try:
+        row, total, test = _low_test()
+        first = 'frac = smoothing_window_fraction'
+    except Exception as exc:   # noqa -- fail closed
+        row, total, test, first = 'False', 'len(cnarr)', 'False', _bad(exc)
+    return [
+        dict(name='load_adjust_coverages', coq='fn_low_row', py_params=_LAC,
+             params=[("cnarr['log2']", 'Q', 'log2_'), ('params.NULL_LOG2_COVERAGE', 'Q', 'null_log2_coverage'),
+                     ('params.MIN_REF_COVERAGE', 'Q', 'min_ref_coverage'), ('smoothing_window_fraction', 'OQ')],
+             fragment={'first': first, 'last': first}, returns=[row], ret='B'),
+        dict(name='load_adjust_coverages', coq='fn_mostly_low', py_params=_LAC,
+             params=[(total, 'Z', 'n_covered'), ('len(cnarr)', 'Z', 'n_rows'), ('smoothing_window_fraction', 'OQ')],
+             fragment={'first': first, 'last': first}, returns=[test], ret='B'),
+    ]
+
+
+def _corr_spec(coq, last):
+    """load_adjust_coverages, the corrections: the statements from `cnarr_index_reset = False` to the `if` named by
+    `last`; tables are opaque ids (cnarr on entry, what each center_by_window call returns AT ITS SITE)"""
+    return dict(name='load_adjust_coverages', coq=coq, py_params=_LAC,
+                fragment={'first': 'cnarr_index_reset = False', 'last': last},
+                params=[('cnarr', 'Z', 'cnarr_id'), ('fix_gc', 'B'), ('fix_edge', 'B'), ('fix_rmask', 'B'),
+                        ("'gc' in ref_matched", 'B', 'has_gc'), ("'rmask' in ref_matched", 'B', 'has_rmask'),
+                        ("center_by_window(cnarr, frac, ref_matched['gc'])", 'Z', 'by_gc'),
+                        ('get_edge_bias(cnarr, params.INSERT_SIZE)', 'Z', 'edge_bias_id'),
+                        ('center_by_window(cnarr, frac, edge_bias)', 'Z', 'by_edge'),
+                        ("center_by_window(cnarr, frac, ref_matched['rmask'])", 'Z', 'by_rmask')],
+                returns=['cnarr', 'cnarr_index_reset'], ret=['Z', 'B'])
+
+
 MODULES = {
     'FnFix': ('cnvlib/fix.py', [
         dict(name='edge_losses', coq='fn_edge_losses',
@@ -172,4 +248,66 @@ MODULES = {
     ]),
     'FnFixMask': ('cnvlib/fix.py', _mask_specs()),
     'FnFixWeights': ('cnvlib/fix.py', _weights_specs()),
+    # per-row stores: center_by_window `df["log2"] -= biases`; do_fix `cnarr.data["log2"] -= ref_matched[log2_key]`
+    # (Proofs/FnFixRows.v: C04_source_window_rows / C04_source_subtract_reference)
+    'FnFixRows': ('cnvlib/fix.py', [
+        dict(name='center_by_window', coq='fn_window_sub', py_params=['cnarr', 'fraction', 'sort_key'],
+             fragment={'first': "df['log2'] = df['log2']", 'last': "df['log2'] = df['log2']"},
+             params=[("df['log2']", 'Q', 'log2_'), ('biases', 'Q', 'bias')], returns=["df['log2']"], ret='Q'),
+        dict(name='do_fix', coq='fn_ref_sub', py_params=_DOFIX,
+             fragment={'first': "cnarr.data['log2'] = ", 'last': "cnarr.data['log2'] = "},
+             params=[("cnarr.data['log2']", 'Q', 'log2_'), ('ref_matched[log2_key]', 'Q', 'ref_log2')],
+             returns=["cnarr.data['log2']"], ret='Q'),
+    ]),
+    # apply_weights: the two masked stores that put the class's size weights into simple_wt, per row
+    # (Proofs/FnFixRows.v: C04_source_class_weights -- the model's per-bin weight is the generated arithmetic applied to
+    #  the value these stores leave)
+    'FnFixClassWt': ('cnvlib/fix.py', [
+        dict(name='apply_weights', coq='fn_store_tgt', py_params=_AW,
+             fragment={'first': 'simple_wt = tgt_simple_wts if', 'last': 'simple_wt = tgt_simple_wts if'},
+             params=[('simple_wt', 'Q'), ('is_anti', 'B'), ('tgt_simple_wts', 'Q')], returns=['simple_wt'], ret='Q'),
+        dict(name='apply_weights', coq='fn_store_anti', py_params=_AW,
+             fragment={'first': 'simple_wt = anti_simple_wts if', 'last': 'simple_wt = anti_simple_wts if'},
+             params=[('simple_wt', 'Q'), ('is_anti', 'B'), ('anti_simple_wts', 'Q')], returns=['simple_wt'], ret='Q'),
+    ]),
+    # load_adjust_coverages: the low-coverage test that skips the corrections (row mask and count test, located by ast)
+    # (Proofs/FnFixCorrections.v: C04_source_mostly_low)
+    'FnFixLow': ('cnvlib/fix.py', _low_specs()),
+    # load_adjust_coverages: which corrections run, in which order, on which table -- three prefixes of the statement
+    # sequence `cnarr_index_reset = False; if fix_gc: ...; if fix_edge: ...; if fix_rmask: ...`
+    # (Proofs/FnFixCorrections.v: C04_source_corrections -- = Model/Fix.v corrections)
+    'FnFixCorrections': ('cnvlib/fix.py', [
+        _corr_spec('fn_corr_gc', 'if fix_gc'),
+        _corr_spec('fn_corr_edge', 'if fix_edge'),
+        _corr_spec('fn_corr_rmask', 'if fix_rmask'),
+    ]),
+    # get_edge_bias, the body of `for _chrom, subarr in cnarr.by_chromosome():` read twice:
+    #   fn_edge_gap   per GAP between consecutive tiles (the shifted slices `x[1:]` / `x[:-1]` are the tile after / before
+    #                 the gap): gap size, the `< margin` mask, the gain the gap gives its right / left neighbour;
+    #   fn_edge_tile  per TILE: size, loss, gains = zeros; the two masked `+=` (the position masks
+    #                 np.concatenate([[False], ok_gaps_mask]) / ([ok_gaps_mask, [False]]) are opaque booleans: "the gap on
+    #                 my left / right is ok"), the appended gains - losses; the per-gap statements are an opaque range.
+    # (Proofs/FnFixEdge.v: C04_source_edge_bias -- = Model/Fix.v edge_go, tile by tile)
+    'FnFixEdge': ('cnvlib/fix.py', [
+        dict(name='edge_losses', coq='fn_edge_losses_',
+             params=[('target_sizes', 'Z'), ('insert_size', 'Z')], ret='Q'),
+        dict(name='edge_gains', coq='fn_edge_gains_',
+             params=[('target_sizes', 'Z'), ('gap_sizes', 'Z'), ('insert_size', 'Z')], ret='Q'),
+        dict(name='get_edge_bias', coq='fn_edge_gap', py_params=['cnarr', 'margin'],
+             fragment={'first': 'gap_sizes = ', 'last': 'right_gains = '},
+             params=[('tile_starts[1:]', 'Z', 'next_start'), ('tile_ends[:-1]', 'Z', 'this_end'),
+                     ('tgt_sizes[1:]', 'Z', 'next_size'), ('tgt_sizes[:-1]', 'Z', 'this_size'), ('margin', 'Z')],
+             returns=['ok_gaps_mask', 'left_gains', 'right_gains'], ret=['B', 'Q', 'Q']),
+        dict(name='get_edge_bias', coq='fn_edge_tile', py_params=['cnarr', 'margin'],
+             loop=dict(first='for _chrom, subarr in cnarr.by_chromosome()'), carried=[], yields=['Q'],
+             append_yields='output_by_chrom',
+             opaque=[dict(first='gap_sizes = ', last='right_gains = ',
+                          assigns=[('ok_gaps_mask', 'mask_id'), ('left_gains', 'left_gain'), ('right_gains', 'right_gain')])],
+             params=[("subarr['start']", 'Z', 'tile_start'), ("subarr['end']", 'Z', 'tile_end'), ('margin', 'Z'),
+                     ('mask_id', 'Z'), ('left_gain', 'Q'), ('right_gain', 'Q'),
+                     ('np.zeros(len(subarr))', 'Q', 'zero'),
+                     ('np.concatenate([[False], ok_gaps_mask])', 'B', 'left_gap_ok'),
+                     ('np.concatenate([ok_gaps_mask, [False]])', 'B', 'right_gap_ok')],
+             ret='Y'),
+    ]),
 }
